@@ -249,6 +249,43 @@ def try_concurrent_bodies(ctx):
     return out
 
 
+SHORT_CIRCUIT_CONCURRENT = ("try_for_each_concurrent", "try_buffer_unordered", "try_buffered", "try_join", "try_join3", "try_join4", "try_join5",
+                            "try_join_all", "select", "select_all", "select_ok", "try_select", "race")
+
+
+def A2(ctx, rule="A2"):
+    """no concurrent driver of the per-function futures short-circuits: every consumer between a body that invokes the
+    user's callback and its public entry is one that runs every started future to completion"""
+    m, fb, fl = ctx.model, ctx.fb, ctx.model.flow
+    seen = set()
+    n = 0
+    for e in m.entries:
+        if m.family(e) == "stream":
+            continue
+        for b in m.per_item_bodies(e["id"]):
+            if b.id in seen:
+                continue
+            seen.add(b.id)
+            x = b
+            chain = []
+            while x is not None:
+                if x.kind == "closure":
+                    for (ub, ubb, ut, ai) in fl.closure_uses(x):
+                        chain.append((callee_path(ut) or "?", ub, ubb))
+                x = fb.bodies.get(x.parent) if x.parent else None
+            if not chain:
+                continue
+            n += 1
+            bad = [(c, ub, ubb) for (c, ub, ubb) in chain if c.split("::")[-1] in SHORT_CIRCUIT_CONCURRENT]
+            where = m.where(bad[0][1], bad[0][2]) if bad else m.where(b)
+            ctx.check(not bad, rule, "driver|%s" % short(b.id), where,
+                      "the futures of %s are driven by %s: none of them stops at a first Err/Break and drops the other started user futures" % (
+                          short(b.id), ", ".join(sorted({c.split("::")[-1] for c, _, _ in chain}))),
+                      "the per-function futures are driven by %s, which returns at the first Err and drops every other started user future mid-way: "
+                      "the call returns while user futures it started have not completed" % (bad[0][0] if bad else ""))
+    ctx.floor(rule, 4, "closures invoking the user callback under a stream consumer")
+
+
 def F_rules(ctx, rule="F"):
     m, fb, fl = ctx.model, ctx.fb, ctx.model.flow
     sends = m.send_sites()
@@ -1272,6 +1309,11 @@ def Q_rules(ctx, rule="Q"):
                 elif p == WALKER_ITER and "Topo<" in (t["args"][0].get("pl", {}).get("ty", "")):
                     topo_step.append((bx, bb, t, graph_sources(bx, t["args"][1])))
         if not topo_new:
+            if f["name"] in want:
+                n += 1
+                ctx.bad(rule + "2", "direction|%s" % f["name"], m.where(b),
+                        "%s does not take its visiting order from a Topo walk over the built graph's structure "
+                        "(no Topo::new reachable from it): the order it yields is not derived from the edges" % f["name"])
             continue
         if f["name"] not in want:
             # streaming entry points use Topo only for the preload (checked by S2)
@@ -1418,6 +1460,30 @@ def Q_rules(ctx, rule="Q"):
 
 # ---------------------------------------------------------------------------
 # C17
+
+def edge_eq_rule(ctx, rule):
+    """Edge == Edge is the derived, variant-by-variant equality (reflexive on every kind, Data included)"""
+    fb = ctx.fb
+    imp = [i for i in fb.impls if i.get("trait") == "std::cmp::PartialEq" and i.get("self_ty") == "edge::Edge"]
+    ok = len(imp) == 1 and bool(imp[0].get("derived"))
+    why = "no PartialEq impl for Edge found" if not imp else "PartialEq for Edge is hand-written (%s:%s): equality of every kind with itself, Data included, is not established" % (
+        imp[0]["sp"]["file"], imp[0]["sp"]["line"])
+    if imp and not ok:
+        # a hand-written eq that compares the discriminants is as good as the derive
+        eqb = fb.bodies.get("<edge::Edge as std::cmp::PartialEq>::eq")
+        if eqb is not None:
+            re_ = return_expr(eqb)
+            r = strip_refs(re_) if re_ is not None else None
+            if r is not None and r.kind == "binop" and r[1] == "Eq":
+                a, b_ = strip_refs(r[2]), strip_refs(r[3])
+                def is_discr_of(x, k):
+                    if x.kind == "call" and x[1] in ("std::mem::discriminant", "std::intrinsics::discriminant_value") and x[2]:
+                        x = E(("discr", strip_refs(x[2][0])))
+                    return x.kind == "discr" and strip_refs(x[1]) == E(("arg", k))
+                ok = (is_discr_of(a, 1) and is_discr_of(b_, 2)) or (is_discr_of(a, 2) and is_discr_of(b_, 1))
+    ctx.check(ok, rule, "edge-eq", "src/edge.rs",
+              "PartialEq for Edge is the derived variant-by-variant comparison: every edge kind, Data included, equals itself", why)
+
 
 def G_rules(ctx, rule="G"):
     m, fb, fl = ctx.model, ctx.fb, ctx.model.flow
@@ -1603,6 +1669,25 @@ def G_rules(ctx, rule="G"):
         ctx.check(bypass_ok([adde[0][0]], ("::node_count", "::edge_count")), rule + "2", "edges-always", where,
                   "every return path of from_graph runs the edge copy (or the graph has no edges)",
                   "from_graph can return without copying the edges for a graph that has edges")
+    # G7: the copy is returned as built: no node/edge-set mutator other than the copying add_node / add_edges touches it
+    from rules_build import DAG_MUTATORS
+    copy_fns = ("daggy::Dag::<N, E, Ix>::add_node", "daggy::Dag::<N, E, Ix>::add_edges", "daggy::Dag::<N, E, Ix>::add_edge",
+                "daggy::Dag::<N, E, Ix>::update_edge")
+    muts = []
+    for bx in m.reach_bodies(fg.id):
+        if not (bx.id == fg.id or bx.id.startswith(fg.id + "::") or bx.id.startswith("graph_info::")):
+            continue
+        for bb, t in bx.calls():
+            p_ = callee_path(t) or ""
+            if p_ in DAG_MUTATORS and p_ not in copy_fns:
+                muts.append((bx, bb, p_))
+            elif p_.startswith("daggy::petgraph::graph::Graph") and p_.split("::")[-1] in (
+                    "remove_node", "remove_edge", "clear", "clear_edges", "retain_nodes", "retain_edges", "reverse", "filter_map", "map"):
+                muts.append((bx, bb, p_))
+    ctx.check(not muts, rule + "2", "copy-unchanged", m.where(muts[0][0], muts[0][1]) if muts else where,
+              "from_graph applies no node/edge-set mutator to the copy besides add_node / add_edges: the GraphInfo holds exactly the copied edges",
+              "from_graph changes the copy with %s: edges of the graph are missing from (or re-indexed in) the GraphInfo" % [x[2].split("::")[-1] for x in muts])
+    edge_eq_rule(ctx, rule + "5")
     # G4 iter / iter_rev
     for nm, rev in (("iter", False), ("iter_rev", True)):
         b = fb.bodies.get("graph_info::GraphInfo::<NodeInfo>::" + nm)
